@@ -36,7 +36,13 @@ pub async fn handle(
             })?;
     let consumer_group = consumer_group.read().await;
     let response = mapper::map_consumer_group(&consumer_group).await;
+    // Journal the ID that was actually assigned, so that replay cannot derive another one.
+    let assigned_group_id = consumer_group.group_id;
     drop(consumer_group);
+    let command = CreateConsumerGroup {
+        group_id: Some(assigned_group_id),
+        ..command
+    };
 
     let system = system.downgrade();
     let stream_id = command.stream_id.clone();
